@@ -183,8 +183,8 @@ func c33Payload(r *rand.Rand) string {
 		return "_x__y:1:"
 	}
 	n := r.Intn(12)
-	if r.Intn(10) == 0 {
-		n = 100 + r.Intn(200)
+	if r.Intn(25) == 0 {
+		n = 95 + r.Intn(12) // lengths with three digits (Coq-side cost grows with the byte count)
 	}
 	b := make([]byte, n)
 	for i := range b {
